@@ -25,4 +25,11 @@ TEXT = {
         "note": "Grey zones not asserted: invalid UTF-8, Any of unlinked types, errors that merely wrap *connect.Error, codes outside 1..16. Trusted: protobuf library for detail equality, refwire for the raw-bytes clause.",
         "technique": "property-based testing (rapid): reference-model comparison handler error == client error, plus differential decode of the raw exchange with an independent codec",
     },
+    'C11': {'text': 'Exploration: generated header/trailer/metadata multimaps across 3 protocols × 2 codecs × 4 kinds × 4 outcome classes × {in-memory, HTTP/1.1, h2c}; '
+         'containment with per-key order in the right place (headers vs trailers vs error metadata) and nothing invented. The binary-header helpers are '
+         'enumerated exhaustively for all byte strings of length ≤2 and sampled up to 300 bytes, decoding padded and unpadded input.',
+ 'design_ref': 'DESIGN.md §5 C11',
+ 'note': "Trusted: net/http's own header handling when the real stack carries the call; memnet.Mem's ResponseWriter emulation otherwise.",
+ 'technique': 'property-based testing (rapid): containment/ordering oracle over generated multimaps; exhaustive enumeration + round-trip for the base64 '
+              'helpers'},
 }
